@@ -16,8 +16,12 @@ def comp(entry, out, save, synth, includes):
         return False
 
 job = json.loads(sys.argv[1])
+home = os.getcwd()
 for h in job["history"]:
+    if h.get("cwd"):
+        os.chdir(h["cwd"])     # an earlier compile of ANOTHER project from its own directory (same relative file names)
     comp(h["entry"], h["out"], h["save"], True, h["includes"])
+    os.chdir(home)
 before = DNA_classes.AnonymousSequence.num
 ok = comp(job["entry"], job["out"], job["save"], job["fmt"] == "pil", job["includes"])
 text = open(job["out"]).read() if ok else None
